@@ -16,6 +16,7 @@ import (
 
 	"github.com/sirupsen/logrus"
 
+	"hop.computer/hop/transport"
 	"verif/harness/hopkit"
 	"verif/harness/rec"
 	"verif/harness/simwire"
@@ -91,10 +92,18 @@ func main() {
 	}
 
 	// ---- 2. cookie binding ------------------------------------------------------------------------
-	for _, class := range []string{"genuine", "other-ip", "other-port", "other-ip-port", "other-key", "rotated", "tampered-cookie"} {
+	for _, class := range []string{"genuine", "other-ip", "other-port", "other-ip-port", "other-key", "rotated", "tampered-cookie", "other-instance",
+		"genuine-v6", "other-ip-v6", "other-port-v6", "other-zone-v6", "genuine-v4mapped"} {
 		wd := hopkit.NewWorld()
 		s := newDisc(wd)
 		a1 := simwire.Addr("10.0.1.1", 1001)
+		v6 := func(ip string, port int) *net.UDPAddr { return &net.UDPAddr{IP: net.ParseIP(ip), Port: port} }
+		switch class {
+		case "genuine-v6", "other-ip-v6", "other-port-v6", "other-zone-v6":
+			a1 = v6("fd00::1:1", 1001)
+		case "genuine-v4mapped":
+			a1 = &net.UDPAddr{IP: net.ParseIP("10.0.1.1").To16(), Port: 1001}
+		}
 		c1 := wd.NewClient(a1, sa, hopkit.CliOpt{Ident: cid, Verify: pol})
 		ca := clientMsgs(wd, s, c1, 2)[1] // CH delivered, SH received, CA captured (not delivered)
 		src := a1
@@ -105,6 +114,17 @@ func main() {
 			src = simwire.Addr("10.0.1.1", 1002)
 		case "other-ip-port":
 			src = simwire.Addr("10.0.7.7", 7)
+		case "other-ip-v6":
+			src = v6("fd00::1:2", 1001)
+		case "other-port-v6":
+			src = v6("fd00::1:1", 1002)
+		case "other-zone-v6":
+			src = v6("fd00::2:1", 1001)
+		case "other-instance": // the cookie of one server instance presented to another one (its own, different cookie key)
+			s.T.Close()
+			wd2 := hopkit.NewWorld()
+			defer wd2.Close()
+			wd, s = wd2, newDisc(wd2)
 		case "other-key":
 			c2 := wd.NewClient(simwire.Addr("10.0.1.3", 1003), sa, hopkit.CliOpt{Ident: cid, Verify: pol})
 			ca2 := clientMsgs(wd, s, c2, 2)[1]
@@ -133,6 +153,8 @@ func main() {
 		class string
 		data  []byte
 		wait  time.Duration
+		skew  int64 // hidden requests are generated right before delivery with this client clock skew
+		gen   bool
 	}
 	var probes []probe
 	{
@@ -141,19 +163,19 @@ func main() {
 		s := newDisc(wd)
 		c := wd.NewClient(simwire.Addr("10.0.1.1", 1001), sa, hopkit.CliOpt{Ident: cid, Verify: pol})
 		ms := clientMsgs(wd, s, c, 3)
-		probes = append(probes, probe{"ch", ms[0], 0}, probe{"ca", ms[1], 0}, probe{"cl", ms[2], 0})
+		probes = append(probes, probe{class: "ch", data: ms[0], wait: 0}, probe{class: "ca", data: ms[1], wait: 0}, probe{class: "cl", data: ms[2], wait: 0})
 		wd.Close()
 		p, err := hopkit.NewPair(pki, sid, cid, false, 8)
 		if err != nil {
 			panic(err)
 		}
 		p.C.T.WriteMsg([]byte("hello"))
-		probes = append(probes, probe{"transport", p.W.Net.TakeFrom(p.C.EP)[0].Data, 0})
+		probes = append(probes, probe{class: "transport", data: p.W.Net.TakeFrom(p.C.EP)[0].Data, wait: 0})
 		p.W.Close()
 		for _, l := range []int{0, 1, 3, 4, 7, 8, 16, 47, 48, 100, 820, 1775, 4000, 65000} {
 			b := make([]byte, l)
 			rng.Read(b)
-			probes = append(probes, probe{"junk", b, 0})
+			probes = append(probes, probe{class: "junk", data: b, wait: 0})
 			for _, t := range []byte{0x01, 0x02, 0x03, 0x04, 0x05, 0x08, 0x09, 0x10, 0x80} {
 				if l > 0 {
 					bb := append([]byte(nil), b...)
@@ -161,7 +183,7 @@ func main() {
 					if l > 1 {
 						bb[1] = 1
 					}
-					probes = append(probes, probe{"junk", bb, 0})
+					probes = append(probes, probe{class: "junk", data: bb, wait: 0})
 				}
 			}
 		}
@@ -184,22 +206,28 @@ func main() {
 		}
 		return wd.Net.TakeFrom(c.EP)[0].Data
 	}
-	probes = append(probes, probe{"hr-wrongkey", genHR(true), 0})
-	for k := 0; k < 3; k++ {
-		probes = append(probes, probe{"fresh-hr", genHR(false), 0})
+	for _, sk := range []struct {
+		class string
+		skew  int64
+	}{{"hr-future", 30}, {"hr-future", 600}, {"hr-future", 12}, {"hr-skew-stale", -12}, {"hr-skew-stale", -60}, {"hr-skew-fresh", -1}, {"hr-skew-fresh", 0}} {
+		probes = append(probes, probe{class: sk.class, skew: sk.skew, gen: true})
 	}
-	probes = append(probes, probe{"hr-stale", genHR(false), 7100 * time.Millisecond})
+	probes = append(probes, probe{class: "hr-wrongkey", data: genHR(true), wait: 0})
+	for k := 0; k < 3; k++ {
+		probes = append(probes, probe{class: "fresh-hr", data: genHR(false), wait: 0})
+	}
+	probes = append(probes, probe{class: "hr-stale", data: genHR(false), wait: 7100 * time.Millisecond})
 	for _, fld := range []string{"hdr", "len", "ekem", "skemct", "certs", "tag", "ts", "mac"} {
 		d := genHR(false)
 		f, _ := hopkit.FieldOf(d, fld)
 		d[f.Off+rng.Intn(f.Len)] ^= byte(1 << uint(rng.Intn(8)))
-		probes = append(probes, probe{"hr-tampered", d, 0})
+		probes = append(probes, probe{class: "hr-tampered", data: d, wait: 0})
 	}
 	for _, cut := range []int{1, 16, 17, 100} {
 		d := genHR(false)
-		probes = append(probes, probe{"hr-trunc", d[:len(d)-cut], 0})
+		probes = append(probes, probe{class: "hr-trunc", data: d[:len(d)-cut], wait: 0})
 	}
-	var mu sync.Mutex
+	var mu, genMu sync.Mutex
 	var wg sync.WaitGroup
 	for i, pr := range probes {
 		wg.Add(1)
@@ -209,6 +237,13 @@ func main() {
 			defer wd.Close()
 			s := wd.NewServer(sa, hopkit.SrvOpt{Ident: sid, KEM: kem, Hidden: true})
 			time.Sleep(pr.wait)
+			if pr.gen {
+				genMu.Lock()
+				transport.VerifSetClientClockSkew(pr.skew)
+				pr.data = genHR(false)
+				transport.VerifSetClientClockSkew(0)
+				genMu.Unlock()
+			}
 			if err := s.EP.Deliver(pr.data, simwire.Addr("10.0.1.1", 1001), hopkit.StepTimeout); err != nil {
 				panic(err)
 			}
